@@ -46,8 +46,28 @@ pub fn build_case(d: &mut Driver, rep: &mut Report, cfg: &WCfg, es: &[(Vec<u8>, 
     }
 }
 
-/// at most this many large (> 16 KiB) tables per process: every request about one carries the whole image
-pub static LARGE_BUDGET: std::sync::atomic::AtomicUsize = std::sync::atomic::AtomicUsize::new(3);
+thread_local! {
+    /// number of eligible `gen_case` calls made by this worker so far
+    static CASE_NO: std::cell::Cell<usize> = std::cell::Cell::new(0);
+}
+/// The rare, expensive shapes are placed deterministically: worker w makes its 4th eligible case (max_n >= 14)
+/// special - w % 5 == 0: one data block beyond 64 KiB; 1: snappy over long runs; 2, 3, 4: a table beyond 16 KiB.
+/// (every request about such a table carries the whole image, so there is exactly one per worker)
+fn special_slot(max_n: usize) -> Option<usize> {
+    if max_n < 14 {
+        return None;
+    }
+    let n = CASE_NO.with(|c| {
+        let v = c.get();
+        c.set(v + 1);
+        v
+    });
+    if n == 3 {
+        Some(crate::util::WORKER_IX.with(|w| w.get()) % 5)
+    } else {
+        None
+    }
+}
 
 pub fn gen_case(d: &mut Driver, rep: &mut Report, rng: &mut Rng, max_n: usize) -> Option<TableCase> {
     // one case in six: a table spanning several 2 KiB filter ranges made of many small blocks, with a
@@ -55,18 +75,49 @@ pub fn gen_case(d: &mut Driver, rep: &mut Report, rng: &mut Rng, max_n: usize) -
     if max_n >= 20 && rng.chance(1, 6) {
         return gen_multi_range_case(d, rep, rng);
     }
-    // one case in forty: a table with > 1000 entries in tiny blocks - block offsets beyond 16384 (3-byte varints in
-    // the handles), an index block with hundreds of entries and restarts, filter offsets beyond one byte
-    if max_n >= 20 && rng.chance(1, 40) && LARGE_BUDGET.fetch_update(std::sync::atomic::Ordering::SeqCst, std::sync::atomic::Ordering::SeqCst, |b| if b > 0 { Some(b - 1) } else { None }).is_ok() {
-        let mut cfg = gen_wcfg(rng);
-        cfg.block_size = *rng.pick(&[0usize, 16, 40]);
-        let n = rng.range(750, 950);
-        let mut es: Vec<(Vec<u8>, Vec<u8>)> = (0..n).map(|i| (format!("k{:05}", i * 3).into_bytes(), rng.any_bytes(i % 7))).collect();
-        if cfg.cmp == CmpKind::Reverse {
-            es.reverse();
+    match special_slot(max_n) {
+        // a table beyond 16 KiB: block offsets that need 3-byte varints in the handles, an index block with hundreds
+        // of entries and restarts (tiny blocks) or hundreds of entries and restarts in one data block
+        Some(2) | Some(3) | Some(4) => {
+            let mut cfg = gen_wcfg(rng);
+            cfg.block_size = *rng.pick(&[0usize, 16, 40, 30000]);
+            let n = rng.range(750, 950);
+            let mut es: Vec<(Vec<u8>, Vec<u8>)> = (0..n).map(|i| (format!("k{:05}", i * 3).into_bytes(), rng.any_bytes(i % 7))).collect();
+            if cfg.cmp == CmpKind::Reverse {
+                es.reverse();
+            }
+            rep.count("tables_large_over_16k");
+            return build_case(d, rep, &cfg, &es);
         }
-        rep.count("tables_large_over_16k");
-        return build_case(d, rep, &cfg, &es);
+        // snappy with values that are one long run (70000 equal bytes): the block compresses by more than 21x, the
+        // maximum a plausibility bound on the declared length may assume
+        Some(1) => {
+            let mut cfg = gen_wcfg(rng);
+            cfg.snappy = true;
+            cfg.block_size = 64;
+            let mut es: Vec<(Vec<u8>, Vec<u8>)> = (0..8).map(|i| (format!("r{:02}", i).into_bytes(), rng.any_bytes(5))).collect();
+            es[3].1 = vec![0x61; 70000];
+            es[6].1 = vec![0x00; 66000];
+            if cfg.cmp == CmpKind::Reverse {
+                es.reverse();
+            }
+            rep.count("tables_with_long_run_values_snappy");
+            return build_case(d, rep, &cfg, &es);
+        }
+        // ONE data block beyond 64 KiB: restart offsets that do not fit 16 bits
+        Some(0) => {
+            let mut cfg = gen_wcfg(rng);
+            cfg.snappy = false;
+            cfg.block_size = 200000;
+            cfg.restart = *rng.pick(&[4usize, 16]);
+            let mut es: Vec<(Vec<u8>, Vec<u8>)> = (0..900).map(|i| (format!("b{:05}", i * 2).into_bytes(), vec![0xf7; 70 + i % 5])).collect();
+            if cfg.cmp == CmpKind::Reverse {
+                es.reverse();
+            }
+            rep.count("tables_with_a_block_over_64k");
+            return build_case(d, rep, &cfg, &es);
+        }
+        _ => {}
     }
     let cfg = gen_wcfg(rng);
     let es = gen_entries(rng, &cfg.cmp, max_n, 80);
